@@ -38,7 +38,7 @@ func vfGenC18(t *rapid.T) vfCaseC18 {
 			// handle 0,1: read handles on two files of distinct content; 2: write handle; 3: directory;
 			// 4: read+write handle that is only read, 5: read+write handle that is only written (seed C18-b: the
 			// request server serves those through a third code path when the handler implements OpenFileWriter)
-			ph.Sync = []vfReq{{T: "OPEN", P: 0, Pflags: 1}, {T: "OPEN", P: 13, Pflags: 1}, {T: "OPEN", P: 8, Pflags: 0x1a}, {T: "OPENDIR", P: 1},
+			ph.Sync = []vfReq{{T: "OPEN", P: 0, Pflags: 1}, {T: "OPEN", P: 15, Pflags: 1}, {T: "OPEN", P: 8, Pflags: 0x1a}, {T: "OPENDIR", P: 1},
 				{T: "OPEN", P: 0, Pflags: 3}, {T: "OPEN", P: 14, Pflags: 0x1b}}
 		}
 		nb := rapid.IntRange(3, 40).Draw(t, "nburst")
@@ -50,6 +50,10 @@ func vfGenC18(t *rapid.T) vfCaseC18 {
 				r.H = rapid.SampledFrom([]int{0, 0, 1, 1, 4, 4, -1}).Draw(t, "rh")
 				r.Off = rapid.SampledFrom([]int{0, 1, 2, 50, 200, 299, 300}).Draw(t, "roff")
 				r.Len = rapid.SampledFrom([]int{1, 3, 100, 300, 32768, 32768, 262144, 262145, 1 << 20}).Draw(t, "rlen")
+				if rapid.IntRange(0, 3).Draw(t, "pageedge") == 0 {
+					// within a DATA header of the page size, on the file that is longer than a page (handle 1)
+					r.Len = 262144 - rapid.IntRange(0, 16).Draw(t, "edge")
+				}
 			case "WRITE":
 				r.Len = rapid.SampledFrom([]int{1, 10, 300}).Draw(t, "wlen")
 				if rapid.IntRange(0, 2).Draw(t, "wrw") == 0 {
@@ -68,7 +72,7 @@ func vfGenC18(t *rapid.T) vfCaseC18 {
 			case "SETSTAT", "REMOVE", "RENAME", "POSIXRENAME", "HARDLINK", "MKDIR", "RMDIR", "SYMLINK", "LSTAT", "STAT", "READLINK":
 				// keep commands away from the files behind the rw handles (indices 0, 8, 13) and from their directory
 				fix := func(p int) int {
-					for _, bad := range []int{0, 8, 13, 12, 1, 5, 6, 14} {
+					for _, bad := range []int{0, 8, 13, 12, 1, 5, 6, 14, 15} {
 						if p == bad {
 							return 9 // new2
 						}
@@ -98,7 +102,7 @@ type vfC18Out struct {
 
 func vfC18FixTimes(root string) {
 	t0 := time.Unix(1100000000, 0)
-	for _, p := range []string{"dir/sub/x", "dir/sub", "dir/a", "dir/b", "dir", "empty", "file", "."} {
+	for _, p := range []string{"dir/sub/x", "dir/sub", "dir/a", "dir/b", "dir", "empty", "file", "big", "."} {
 		os.Chtimes(root+"/"+p, t0, t0)
 	}
 }
